@@ -292,6 +292,10 @@ def normalize_url(
         port = None
 
     # Normalizing the path
+    # NOTE: unescaping first so escaped dot segments, index pages and amp
+    # suffixes are seen by the rules below
+    path = safely_unquote_path(path)
+
     if path:
         trailing_slash = False
         if path.endswith("/") and len(path) > 1:
@@ -334,9 +338,10 @@ def normalize_url(
 
         # TODO: what to do of empty query items vs. no valued
         # TODO: should be dedupe query items?
+        # NOTE: filtering and sorting must consider the unescaped items
         qsl = [
             item
-            for item in safe_qsl_iter(query)
+            for item in safely_unquote_qsl(safe_qsl_iter(query))
             if not should_strip_query_item(
                 item,
                 normalize_amp=normalize_amp,
@@ -383,34 +388,31 @@ def normalize_url(
         path = path.rstrip("/")
 
     # Quoting
+    # NOTE: the quoted form is the quoting of the unquoted normalized form
     if user:
+        user = safely_unquote_auth_item(user)
+
         if quoted:
             user = safely_quote(user)
-        else:
-            user = safely_unquote_auth_item(user)
 
     if password:
+        password = safely_unquote_auth_item(password)
+
         if quoted:
             password = safely_quote(password)
-        else:
-            password = safely_unquote_auth_item(password)
 
     if quoted:
         path = safely_quote(path)
-    else:
-        path = safely_unquote_path(path)
 
     if quoted:
         qsl = safely_quote_qsl(qsl)
-    else:
-        qsl = safely_unquote_qsl(qsl)
 
     query = safe_serialize_qsl(qsl)
 
+    fragment = safely_unquote_fragment(fragment)
+
     if quoted:
         fragment = safely_quote(fragment)
-    else:
-        fragment = safely_unquote_fragment(fragment)
 
     # Result
     netloc = unsplit_netloc(user, password, hostname, port)
